@@ -87,40 +87,45 @@ def run(rep, tier, parts=("jit", "ctor", "interp", "cranelift")):
         rj = rep.rule("R09.j", "JIT prologue: r1, r10, packet base and fixed-mbuff pointer stores per wrapper flags", floor=3)
         want_r1 = {(False, False): "MEM_PTR", (True, False): "MBUFF_PTR", (True, True): "MBUFF_PTR"}
         for flags in ((False, False), (True, False), (True, True)):
-            frs = [f for f in jitmodel.frame_templates(jm, *flags) if f["ok"]]
-            good, found = len(frs) == 1, {}
-            if good:
-                ins = X.decode_lenient(frs[0]["prologue"])
-                ms = X.run_lenient(ins, entry_machine(jm))
-                good = len(ms) == 1
-                if good:
-                    m = ms[0]
-                    r1 = m.regs[jm.regmap[1]]
-                    r10 = m.regs[jm.regmap[10]]
-                    rsp = m.regs[X.RSP]
-                    top = jitmodel.rsp_offset(r10)
-                    # the region [top-512, top) must have been allocated below r10 before the body runs
-                    alloc = jitmodel.rsp_offset(rsp)
-                    stores = [(w, a, x) for w, a, x in m.stores]
-                    exp_stores = []
-                    if flags == (True, True):
-                        exp_stores = [(64, T.op("add", 64, ("v", "MBUFF_PTR", 64), ("v", "DATA_OFF", 64)), ("v", "MEM_PTR", 64)),
-                                      (64, T.op("add", 64, ("v", "MBUFF_PTR", 64), ("v", "DATA_END_OFF", 64)),
-                                       T.op("add", 64, ("v", "MEM_PTR", 64), ("v", "MEM_LEN", 64)))]
-                    found = {"r1": T.show(r1), "r10_offset": top, "rsp_offset": alloc, "packet_base": T.show(m.regs[X.R10]),
-                             "stores": [(w, T.show(a), T.show(x)) for w, a, x in stores]}
-                    good = r1 == ("v", want_r1[flags], 64) and top is not None and alloc is not None and top - alloc >= STACK + 8 and \
-                        m.regs[X.R10] == ("v", "MEM_PTR", 64) and stores == exp_stores
-                    # epilogue mirrors the prologue
-                    epi = X.decode_lenient(frs[0]["epilogue"])
-                    pushes = [i.reg for i in ins if i.mn == "push"]
-                    pops = [i.reg for i in epi if i.mn == "pop"]
-                    subs = [i for i in ins if i.mn == "alu" and i.op == "sub" and i.dst == ("reg", X.RSP)]
-                    adds = [i for i in epi if i.mn == "alu" and i.op == "add" and i.dst == ("reg", X.RSP)]
-                    mirror = pops == list(reversed(pushes)) and len(subs) == 1 and len(adds) == 1 and subs[0].src == adds[0].src and epi[-1].mn == "ret"
-                    found["epilogue_mirrors_prologue"] = mirror
-                    found["callee_saved_pushed"] = sorted(pushes)
-                    good = good and mirror and set(pushes) >= {jm.regmap[k] for k in (6, 7, 8, 9, 10)}
+            frs_all = [f for f in jitmodel.frame_templates(jm, *flags) if f["ok"]]
+            good, found = bool(frs_all), {}
+            # every variant of the prologue the generator can emit (it may depend on the program) sets up the same context
+            for fr1 in frs_all:
+              frs = [fr1]
+              if not good:
+                break
+              if True:
+                  ins = X.decode_lenient(frs[0]["prologue"])
+                  ms = X.run_lenient(ins, entry_machine(jm))
+                  good = len(ms) == 1
+                  if good:
+                      m = ms[0]
+                      r1 = m.regs[jm.regmap[1]]
+                      r10 = m.regs[jm.regmap[10]]
+                      rsp = m.regs[X.RSP]
+                      top = jitmodel.rsp_offset(r10)
+                      # the region [top-512, top) must have been allocated below r10 before the body runs
+                      alloc = jitmodel.rsp_offset(rsp)
+                      stores = [(w, a, x) for w, a, x in m.stores]
+                      exp_stores = []
+                      if flags == (True, True):
+                          exp_stores = [(64, T.op("add", 64, ("v", "MBUFF_PTR", 64), ("v", "DATA_OFF", 64)), ("v", "MEM_PTR", 64)),
+                                        (64, T.op("add", 64, ("v", "MBUFF_PTR", 64), ("v", "DATA_END_OFF", 64)),
+                                         T.op("add", 64, ("v", "MEM_PTR", 64), ("v", "MEM_LEN", 64)))]
+                      found = {"r1": T.show(r1), "r10_offset": top, "rsp_offset": alloc, "packet_base": T.show(m.regs[X.R10]),
+                               "stores": [(w, T.show(a), T.show(x)) for w, a, x in stores]}
+                      good = r1 == ("v", want_r1[flags], 64) and top is not None and alloc is not None and top - alloc >= STACK and \
+                          m.regs[X.R10] == ("v", "MEM_PTR", 64) and stores == exp_stores
+                      # epilogue mirrors the prologue
+                      epi = X.decode_lenient(frs[0]["epilogue"])
+                      pushes = [i.reg for i in ins if i.mn == "push"]
+                      pops = [i.reg for i in epi if i.mn == "pop"]
+                      subs = [i for i in ins if i.mn == "alu" and i.op == "sub" and i.dst == ("reg", X.RSP)]
+                      adds = [i for i in epi if i.mn == "alu" and i.op == "add" and i.dst == ("reg", X.RSP)]
+                      mirror = pops == list(reversed(pushes)) and len(subs) == 1 and len(adds) == 1 and subs[0].src == adds[0].src and epi[-1].mn == "ret"
+                      found["epilogue_mirrors_prologue"] = mirror
+                      found["callee_saved_pushed"] = sorted(pushes)
+                      good = good and mirror and set(pushes) >= {jm.regmap[k] for k in (6, 7, 8, 9, 10)}
             rep.ob(rj, "flags=%s" % (flags,), good, "JIT prologue/epilogue for (use_mbuff, update_data_ptr) = %s" % (flags,),
                    expected={"r1": want_r1[flags], "r10": "top of a 512-byte area below the saved registers", "packet_base": "MEM_PTR"}, found=found, sample=True)
 
@@ -221,10 +226,17 @@ def run(rep, tier, parts=("jit", "ctor", "interp", "cranelift")):
                 seen = set()
                 for v, st in oks:
                     fe = [e for e in st.effects if e[0] == "call" and e[1] == "core::vec::from_elem"]
-                    if len(fe) != 1 or fe[0][2][0] != T.K(8, 0):
-                        probs.append("%d zeroed-vector allocations on an Ok path" % len(fe))
+                    lens = [e[2][1] for e in fe if e[2][0] == T.K(8, 0)]
+                    # `buffer.clear(); buffer.resize(n, 0)` is the same zeroed buffer of n bytes
+                    calls_ = [e for e in st.effects if e[0] == "call" and isinstance(e[1], str)]
+                    for k_, e in enumerate(calls_):
+                        if e[1].endswith("Vec<T, A>::resize") and len(e[2]) >= 3 and e[2][2] == T.K(8, 0) and \
+                                any(c[1].endswith("Vec<T, A>::clear") and c[2][:1] == e[2][:1] for c in calls_[:k_]):
+                            lens.append(e[2][1])
+                    if len(lens) != 1 or len(fe) > 1:
+                        probs.append("%d zeroed-buffer allocations on an Ok path" % len(lens))
                         continue
-                    ln = fe[0][2][1]
+                    ln = lens[0]
                     if ln in mx:
                         seen |= {"ge", "lt"}
                     elif ln == x8 and (ge in st.conds or T.lnot(lt) in st.conds):
